@@ -63,6 +63,19 @@ NONASCII = ["\u00e9", "\u4e2d", "\u00f1", "\u20ac", "\u2192", "\u00a0", "\u200b"
 DEF_LIST = [("A", False, "Red"), ("B", False, "Blue, (Green)"), ("C", True, "Label/#"), ("D", True, "Item-count/#"),
             ("U", True, "Distance/# m"), ("E", False, ""), ("P", True, "Label/aaaaaaaaaaaaaaaaaaaaaaaa#"),
             ("K", True, "Keyboard-key/#")]       # K: the placeholder tag has neither unit nor value class
+# Definitions whose names hold a character with str.lower() != str.casefold() (sharp s, final capital sigma, a ligature):
+# definitions are keyed by name.casefold() everywhere, so a lookup that lower-cases instead misses them.  Only for 8.3.0-generation
+# vocabularies (older ones reject non-ASCII outright).  The model folds ASCII letters only, so these names are ALWAYS used exactly as
+# declared, character for character - never case-varied (see Gen.def_tag) - and the model's key is the ASCII-lowered name.
+DEF_LIST_UNICODE = [("Stra\u00dfe", False, "Red"), ("Ma\u00df-band", True, "Label/#"), ("\u039f\u0394\u039f\u03a3", False, "Blue"),
+                    ("\ufb01x", True, "Item-count/#")]
+DEF_NAME_CHARS = {c for n, _, _ in DEF_LIST_UNICODE for c in n if ord(c) > 127}
+
+
+def model_fold(s):
+    """the model's `fold`: ASCII letters lower-cased, everything else as written"""
+    return "".join(c.lower() if c.isascii() else c for c in s)
+
 SPEC = {  # the property statement's table: injected rule violation -> published code
     "unknown_tag": "TAG_INVALID", "forbidden_extension": "TAG_EXTENSION_INVALID",
     "forbidden_extension_term": "TAG_EXTENSION_INVALID", "missing_required_child": "TAG_REQUIRES_CHILD",
@@ -124,7 +137,7 @@ def defs_for(v):
     if not {"Def", "Def-expand", "Definition"} <= shorts:
         return []
     out = []
-    for name, takes, text in DEF_LIST:
+    for name, takes, text in DEF_LIST + (DEF_LIST_UNICODE if v.modern else []):
         tags = [t.strip(" ()").split("/")[0] for t in text.split(",") if t.strip(" ()")]
         if all(t in shorts for t in tags):
             out.append((name, takes, text))
@@ -169,6 +182,8 @@ FIXTURES = [
     "(Delay/2 s, (Red))", "(Delay/abc s, (Red))", "(Delay/2, (Red))", "(delay/2 ms, (Red))", "(Delay/2 zz, (Red))", "(Delay/#, (Red))",
     "(Red, Delay/1.5 s)", "Delay/2 s, (Delay/3 s, (Red)), Blue", "(Delay/2 s, Delay/3 s, (Red))", "((Delay/2 s, (Red)))", "(Delay/1e3 ms, Onset, Def/A)",
     "(Delay/2 minutes, (Red))", "(Delay/2 hour, (Red))", "(Delay/.5 day, (Red))", "(Delay/2 Ms, (Red))", "(Delay/ s, (Red))", "(Delay/s 2, (Red))", "(Delay/2  s, (Red))", "(Delay/inf s, (Red))", "(Delay/1_0 s, (Red))", "(Delay/nan, (Red))", "(Delay/2\t s, (Red))",
+    "Def/Stra\u00dfe", "(Def-expand/Stra\u00dfe, (Red))", "Def/Ma\u00df-band/x1", "(Def-expand/Ma\u00df-band/x1, (Label/x1))", "Def/\u039f\u0394\u039f\u03a3",
+    "(Def/\u039f\u0394\u039f\u03a3, Onset)", "Def/\ufb01x/3", "Def/Stra\u00dfe/1", "Def/Ma\u00df-band",
     "Def/K/a", "Def/K/a$b", "Def/K/a b.c", "(Def-expand/K/x, (Keyboard-key/x))", "(Def-expand/K/x@, (Keyboard-key/x@))", "Def/K/#", "Def/K",
     "Def/K/x:y", "Def/K/é", "(Def/K/F1, Onset)", "Def/P/x$", "Def/P/x", "Def/P/x$y$", "(Def-expand/P/x, (Label/aaaaaaaaaaaaaaaaaaaaaaaax))", "Def/C/a$b$c", "Def/U/3$ m", "Def/D/3$",
     "Def/E", "(Def-expand/E)", "(Def-expand/E, (Red))", "Def/E/1", "Def/A$", "Def/A b", "Def/C/#", "Def/C/", "Def/C//x", "Def/c/X1", "def/a",
@@ -289,7 +304,7 @@ class Vocab:
         return (n[:-2] if n.endswith("/#") else n).split("/")[-1]
 
     def payload(self, chars):
-        return {"defs": [{"key": n.casefold(), "takes": takes, "text": text} for n, takes, text in getattr(self, "defs", [])],
+        return {"defs": [{"key": model_fold(n), "takes": takes, "text": text} for n, takes, text in getattr(self, "defs", [])],
                 "tags": self.long, "attrs": self.attrs, "mods": self.mods, "classes": self.classes, "modern": self.modern,
                 "nonprintable": [ord(c) for c in chars if not c.isprintable()], "space": [ord(c) for c in chars if c.isspace()],
                 "alnum": [ord(c) for c in chars if c.isalnum()], "alpha": [ord(c) for c in chars if c.isalpha()]}
@@ -511,10 +526,11 @@ class Gen:
     def def_value(self, name):
         self.uid += 1
         return {"C": f"nm{self.uid}", "D": self.rng.choice(["3", "12", "0.5"]), "U": self.rng.choice(["3", "2.5"]), "P": f"v{self.uid}",
-                "K": self.rng.choice([f"k{self.uid}", f"F{self.uid}", f"k-{self.uid}", f"k {self.uid}.5"])}.get(name)
+                "K": self.rng.choice([f"k{self.uid}", f"F{self.uid}", f"k-{self.uid}", f"k {self.uid}.5"]),
+                "Ma\u00df-band": f"nm{self.uid}", "\ufb01x": self.rng.choice(["3", "7"])}.get(name)
 
     def def_tag(self, base, name, value=None):
-        nm = self.rng.choice([name, name, name.lower()])
+        nm = self.rng.choice([name, name, name.lower()]) if name.isascii() else name     # non-ASCII names: exactly as declared
         return self.spell(base) + "/" + nm + ("/" + value if value is not None else "")
 
     def def_expand(self, name, value=None):
@@ -525,7 +541,8 @@ class Gen:
             return Sealed([tag])
         content = {"A": ["Red"], "B": self.rng.choice([["Blue", ["Green"]], [["Green"], "Blue"]]), "C": [f"Label/{value}"],
                    "D": [f"Item-count/{value}"], "U": [f"Distance/{value} m"],
-                   "P": [f"Label/aaaaaaaaaaaaaaaaaaaaaaaa{value}"], "K": [f"Keyboard-key/{value}"]}[name]
+                   "P": [f"Label/aaaaaaaaaaaaaaaaaaaaaaaa{value}"], "K": [f"Keyboard-key/{value}"]}.get(name) \
+            or [text.replace("#", value if value is not None else "#")]
         g = [tag, Sealed(content)]
         if self.rng.random() < 0.3:
             g.reverse()
@@ -893,7 +910,9 @@ def fuzz_strings(rng, g, n):
                 parts.append(t[:k] if rng.random() < 0.5 else t[k:])
         joiner = rng.choice(["", "", ",", ", ", " "])
         out.append(joiner.join(parts))
-    return out
+    # Random edits must not cut into a definition name whose case-folding changes its length (sharp s, ligature): the model's fold is
+    # character-wise.  Such names are exercised, exactly as declared, by the grammar stream and the fixtures.
+    return [x if not any(c in DEF_NAME_CHARS for c in x) else "".join(c for c in x if c not in DEF_NAME_CHARS) for x in out]
 
 
 # ------------------------------------------------------------------------------------------ run
@@ -944,7 +963,7 @@ def _detect_variant():
 def run_cases(ctx, v, cases):
     """model answers for [(text, ph)]"""
     chars = sorted({c for t, _ in cases for c in t if ord(c) > 127})
-    unknown = [c for c in chars if c.casefold() != c or c.isdigit()]
+    unknown = [c for c in chars if (c.casefold() != c and c not in DEF_NAME_CHARS) or c.isdigit()]
     if unknown:
         raise RuntimeError(f"alphabet holds characters outside the model's assumptions: {unknown!r}")
     base = dict(v.payload(chars), **detect_variant(), op="c01.run", ns=v.ns)
